@@ -312,7 +312,37 @@ where
     }
 }
 
+#[cfg(not(zlink_verif))]
 pub(crate) const BUFFER_SIZE: usize = 256;
+#[cfg(not(zlink_verif))]
 const MAX_BUFFER_SIZE: usize = 100 * 1024 * 1024; // Don't allow buffers over 100MB.
+
+// Verification hooks (`--cfg zlink_verif`): the two constants can be lowered at compile time so
+// that boundary behaviour can be swept exhaustively. Defaults are the production values.
+#[cfg(zlink_verif)]
+pub(crate) const BUFFER_SIZE: usize =
+    verif_parse_usize(option_env!("ZLINK_VERIF_BUFFER_SIZE"), 256);
+#[cfg(zlink_verif)]
+const MAX_BUFFER_SIZE: usize = verif_parse_usize(
+    option_env!("ZLINK_VERIF_MAX_BUFFER_SIZE"),
+    100 * 1024 * 1024,
+);
+#[cfg(zlink_verif)]
+const fn verif_parse_usize(s: Option<&str>, default: usize) -> usize {
+    match s {
+        None => default,
+        Some(s) => {
+            let b = s.as_bytes();
+            let mut i = 0;
+            let mut v = 0usize;
+            while i < b.len() {
+                assert!(b[i] >= b'0' && b[i] <= b'9');
+                v = v * 10 + (b[i] - b'0') as usize;
+                i += 1;
+            }
+            v
+        }
+    }
+}
 
 static NEXT_ID: AtomicUsize = AtomicUsize::new(0);
